@@ -208,6 +208,30 @@ def ofSaved (f : Saved) : Json :=
 
 def ofRunOut (o : RunOut) : Json := Json.mkObj [("info", ofInfo o.info), ("out", C12.ofOutput o.out)]
 
+/-- `--read_group` of a request: absent or null = not given -/
+def jCmdReadGroup (j : Json) : Except String (Option String) :=
+  match j.getObjVal? "cmd_read_group" with
+  | .ok v => jOpt jS v
+  | .error _ => pure none
+
+def jOtherReplicas (j : Json) : Except String Bool :=
+  match j.getObjVal? "other_replicas" with
+  | .ok v => jBool v
+  | .error _ => pure false
+
+def ofSetup (s : Setup) : Json := Json.mkObj [
+  ("read_group", ofOpt ofS s.readGroup), ("use_technical_replicas", ofBool s.useTechnicalReplicas),
+  ("grouped_tables", ofBool (groupedTablesWritten s))]
+
+def ofRunOutS (x : Setup × RunOut) : Json :=
+  Json.mkObj [("info", ofInfo x.2.info), ("out", C12.ofOutput x.2.out), ("setup", ofSetup x.1)]
+
+def jSavedSetup (j : Json) : Except String SavedSetup := do
+  pure { fileCount := ← jInt (← arg j "files"), readGroup := ← jOpt jS (← arg j "read_group") }
+
+def ofSavedSetup (s : SavedSetup) : Json :=
+  Json.mkObj [("files", ofInt s.fileCount), ("read_group", ofOpt ofS s.readGroup)]
+
 /-! ### op table -/
 
 def wr {α} (dec : Json → Except String α) (f : α → Option Bytes) : Handler := fun j => do
@@ -277,8 +301,8 @@ def ops : List (String × Handler) := [
   ("restart_run", fun j => do
       let E ← jEnv j
       let cfg ← C12.jConfig (← arg j "cfg")
-      match restartRun E cfg (← jList jS (← arg j "names")) (← jSaved (← arg j "files")) with
-      | some o => pure (ofRunOut o)
+      match restartRunS E cfg (← jCmdReadGroup j) (← jList jS (← arg j "names")) (← jSaved (← arg j "files")) with
+      | some o => pure (ofRunOutS o)
       | none => pure (jErr "error")),
   ("restart_run_orig", fun j => do
       let E ← jEnv j
@@ -286,6 +310,29 @@ def ops : List (String × Handler) := [
       match restartRunOrig E cfg (← jList jS (← arg j "names")) (← jSaved (← arg j "files")) with
       | some o => pure (ofRunOut o)
       | none => pure (jErr "error")),
+  ("restart_run_orig_setup", fun j => do
+      let E ← jEnv j
+      let cfg ← C12.jConfig (← arg j "cfg")
+      match restartRunOrigS E cfg (← jCmdReadGroup j) (← jList jS (← arg j "names")) (← jSaved (← arg j "files")) with
+      | some o => pure (ofRunOutS o)
+      | none => pure (jErr "error")),
+  ("restart_all", fun j => do
+      let E ← jEnv j
+      let cfg ← C12.jConfig (← arg j "cfg")
+      let exps ← jList (fun x => do pure (← jList jS (← arg x "names"), ← jSaved (← arg x "files"))) (← arg j "experiments")
+      pure (ofList (fun o => match o with | some x => ofRunOutS x | none => jErr "error")
+              (restartAllS E cfg (← jCmdReadGroup j) exps))),
+  ("enc_info_file_setup", fun j => do
+      let x ← arg j "x"
+      pure (ofW (writeInfoFileSetup (← jInfo x) (← jInt (← arg x "unaligned")) (← jSavedSetup (← arg x "setup"))))),
+  ("dec_setup", rd readSetup (fun s => ofSavedSetup { s with readGroup := truthyStr s.readGroup })),
+  ("setup_of", fun j => do
+      let cmd ← jCmdReadGroup j
+      let n ← jNat (← arg j "files")
+      let other ← jOtherReplicas j
+      pure (Json.mkObj [("saving", ofSetup (savingSetup cmd other n)), ("saved", ofSavedSetup (savedSetupOf cmd other n)),
+                        ("restart", ofSetup (restartSetup cmd (savedSetupOf cmd other n))),
+                        ("restart_orig", ofSetup (restartSetupOrig cmd))])),
   ("enc_info_file", fun j => do
       let x ← arg j "x"
       pure (ofW (writeInfoFile (← jInfo x) (← jInt (← arg x "unaligned"))))),
@@ -293,9 +340,9 @@ def ops : List (String × Handler) := [
   ("saving_run", fun j => do
       let E ← jEnv j
       let cfg ← C12.jConfig (← arg j "cfg")
-      match savingRun E cfg (← jList jS (← arg j "read_groups")) (← jList jNat (← arg j "unmapped"))
-              (← jList jChrIn (← arg j "chroms")) with
-      | some (f, o) => pure (Json.mkObj [("files", ofSaved f), ("run", ofRunOut o)])
+      match savingRunS E cfg (← jCmdReadGroup j) (← jOtherReplicas j) (← jList jS (← arg j "read_groups"))
+              (← jList jNat (← arg j "unmapped")) (← jList jChrIn (← arg j "chroms")) with
+      | some (f, s, o) => pure (Json.mkObj [("files", ofSaved f), ("run", ofRunOutS (s, o))])
       | none => pure (jErr "error")),
   ("load_verdicts", fun j => do
       let E ← jEnv j
